@@ -421,6 +421,12 @@ var alphabets = []alphabet{
 	{"devanagari", runesRange(0x0915, 0x0939), []rune{0x093E, 0x093F, 0x0941, 0x094D}},
 	{"arabic", runesRange(0x0627, 0x064A), []rune{0x064B, 0x0651}},
 	{"astral", runesRange(0x10400, 0x1044F), nil},
+	{"modifier-letters", append(runesRange(0x02B0, 0x02C1), runesRange('a', 'z')...), nil},                    // Lm
+	{"titlecase", append([]rune{0x01C5, 0x01C8, 0x01CB, 0x01F2}, runesRange('a', 'z')...), nil},               // Lt
+	{"enclosing-marks", runesRange('a', 'z'), []rune{0x20DD, 0x20DE, 0x20E0, 0x0488}},                         // Me
+	{"thai", runesRange(0x0E01, 0x0E2E), []rune{0x0E31, 0x0E34, 0x0E47, 0x0E48}},                              // Lo + Mn
+	{"hebrew-points", runesRange(0x05D0, 0x05EA), []rune{0x05B0, 0x05B8, 0x05BC, 0x05C1}},                     // RTL + Mn
+	{"compat-forms", append(runesRange(0xFF41, 0xFF5A), 0xFB01, 0xFB02, 0x2126, 0x212B, 0x00B5, 0x017F), nil}, // letters that NFKC/NFKD would rewrite
 }
 
 func genWord(r *plan.Rand, a *alphabet) string {
@@ -674,7 +680,7 @@ func CheckC17(e *Env) (int, error) {
 	cov := map[string]interface{}{
 		"evaluations":                runs,
 		"distinct_nontrivial":        len(distinct),
-		"rule":                       "a case = one run of the real update-wordlist binary (built with -tags verif, its map range rewritten to a seed-chosen order) against a simulated upstream (in-process file transport, ten generated files of letters and combining marks in 14 scripts, 0-5000 lines and occasionally 70k-260k lines (> 1 MiB), blank lines, duplicates, with/without trailing newline; in half of the runs the response bodies arrive in seeded short reads, the last bytes possibly together with io.EOF; every 25th run the frozen canonical lists) and a seeded disk pre-state per target (absent, much longer stale file, shorter file, junk). Each output is parsed and type-checked and compared entry by entry with the non-empty input lines. Non-trivial: >= 1 target had a pre-existing file and >= 1 word is non-ASCII; distinct by digest of (inputs, pre-state, order).",
+		"rule":                       "a case = one run of the real update-wordlist binary (built with -tags verif, its map range rewritten to a seed-chosen order) against a simulated upstream (in-process file transport, ten generated files of letters and combining marks in 20 alphabets (scripts and letter/mark categories), 0-5000 lines and occasionally 70k-260k lines (> 1 MiB), blank lines, duplicates, with/without trailing newline; in half of the runs the response bodies arrive in seeded short reads, the last bytes possibly together with io.EOF; every 25th run the frozen canonical lists) and a seeded disk pre-state per target (absent, much longer stale file, shorter file, junk). Each output is parsed and type-checked and compared entry by entry with the non-empty input lines. Non-trivial: >= 1 target had a pre-existing file and >= 1 word is non-ASCII; distinct by digest of (inputs, pre-state, order).",
 		"exhaustive":                 false,
 		"samples":                    samples,
 		"runs":                       runs,
